@@ -229,7 +229,7 @@ def run(db: DB, rep: Report) -> None:
     tree_param = bl.call_params[0]
     calls = [n for n in walk_no_nested(bl.node) if isinstance(n, ast.Call) and
              isinstance(n.func, ast.Attribute) and n.func.attr == "__build_component"]
-    ok = bool(calls) and all(len(n.args) == 2 and norm(n.args[1]) in
+    ok = bool(calls) and all(len(n.args) >= 2 and norm(n.args[1]) in
                              ("%s['num']" % tree_param,) for n in calls)
     rep.check("M3", ok, db.loc(bl.node), bl.short, "hop:level->component",
               "__build_level passes %s['num'] to __build_component" % tree_param,
@@ -311,6 +311,84 @@ def run(db: DB, rep: Report) -> None:
                   "%s writes no state%s" % (g.short, " and depends on '%s'" % g.call_params[0] if g.call_params else ""),
                   "%s %s: a value computed for one Einsum / configuration would be reused for another" %
                   (g.short, "writes self.%s" % w[0][0] if w else "does not depend on its argument"))
+
+    # ---- M7: components are looked up in the configuration of the Einsum ------------
+    rep.rule("M7", "component table is keyed by configuration; lookups select the Einsum's configuration", 2)
+    hinit = hw.methods["__init__"]
+    cfg_loops = [n for n in walk_no_nested(hinit.node) if isinstance(n, ast.For) and
+                 isinstance(n.target, ast.Name) and "architecture" in norm(n.iter) and
+                 any(isinstance(x, ast.Call) and isinstance(x.func, ast.Attribute) and
+                     x.func.attr == "__build_level" for x in ast.walk(n))]
+    if len(cfg_loops) != 1:
+        raise AnalysisError("per-configuration loop of Hardware.__init__ not found")
+    cfg_var = cfg_loops[0].target.id
+
+    def cfg_bound(e: ast.AST, g: FuncInfo, seen=frozenset()) -> bool:
+        """does expression e denote the configuration being built?  (recursive
+        calls that pass the parameter on unchanged are assumed to hold)"""
+        if not isinstance(e, ast.Name):
+            return False
+        if g is hinit:
+            return e.id == cfg_var
+        if (g.qualname, e.id) in seen:
+            return True
+        if e.id in g.call_params:
+            if any(isinstance(x, ast.Name) and isinstance(x.ctx, ast.Store) and x.id == e.id
+                   for x in walk_no_nested(g.node)):
+                return False
+            idx = g.call_params.index(e.id)
+            cs = [(c_, call) for c_, call in db.callers().get(g.qualname, []) if c_.cls is hw]
+            return bool(cs) and all(idx < len(call.args) and
+                                    cfg_bound(call.args[idx], c_, seen | {(g.qualname, e.id)})
+                                    for c_, call in cs)
+        return False
+    table_field = None
+    n_store = 0
+    for g in hw.methods.values():
+        for n in walk_no_nested(g.node):
+            if isinstance(n, ast.Assign) and isinstance(n.targets[0], ast.Subscript) and \
+                    isinstance(n.value, ast.Name):
+                t = n.targets[0]
+                chain = []
+                b = t
+                while isinstance(b, ast.Subscript):
+                    chain.append(b.slice)
+                    b = b.value
+                if not (isinstance(b, ast.Attribute) and norm(b.value) == "self"):
+                    continue
+                vt = db.type_of(n.value, g)
+                if not (vt and vt[0] == "cls" and db.classes.get(vt[1]) is not None and
+                        comp in db.classes[vt[1]].mro()):
+                    continue
+                n_store += 1
+                table_field = b.attr
+                first = chain[-1]
+                ok = len(chain) >= 2 and cfg_bound(first, g)
+                rep.check("M7", ok, db.loc(n), g.short, "component-table-store:" + norm(t),
+                          "component stored as %s (first key is the configuration being built)" % norm(t),
+                          "Hardware stores a component as %s: the table is not keyed by the configuration "
+                          "although components are built once per configuration; with equal component names "
+                          "in two configurations one object answers both, and an Einsum is timed with the "
+                          "other configuration's instance count" % norm(t))
+    if n_store < 1:
+        raise AnalysisError("no store of a component into a table of Hardware found")
+    gcs = hw.methods["get_components"]
+    reads = [n for n in walk_no_nested(gcs.node) if isinstance(n, ast.Subscript) and
+             isinstance(n.ctx, ast.Load) and norm(n).startswith("self.%s[" % table_field) and
+             not isinstance(n.parent, ast.Subscript)]
+    ok = bool(reads)
+    for r_ in reads:
+        b = r_
+        chain = []
+        while isinstance(b, ast.Subscript):
+            chain.append(b.slice)
+            b = b.value
+        first = chain[-1]
+        ok = ok and len(chain) >= 2 and gcs.call_params[0] in paths.load_names(first)
+    rep.check("M7", ok, db.loc(gcs.node), gcs.short, "component-table-read",
+              "get_components(einsum, ...) selects the table of the Einsum's configuration",
+              "Hardware.get_components does not select the component through the configuration of its "
+              "'%s' argument" % gcs.call_params[0])
 
     # ---- M4 ------------------------------------------------------------------
     rep.rule("M4", "roll-up runs after every registering builder, on the last Einsum only", 2)
@@ -433,12 +511,18 @@ def mutants(db: DB):
                      "super().__init__(name, num_instances + 1, attrs, bindings)",
                      count=db.module("teaal.ir.component").src.count(
                          "super().__init__(name, num_instances, attrs, bindings)"))], ("M3",)),
-        M("Hardware passes num + 1", "teaal/ir/hardware.py", "self.__build_component(comp, tree[\"num\"])",
-          "self.__build_component(comp, tree[\"num\"] + 1)", "M3"),
+        M("Hardware passes num + 1", "teaal/ir/hardware.py", "self.__build_component(comp, tree[\"num\"], config)",
+          "self.__build_component(comp, tree[\"num\"] + 1, config)", "M3"),
         M("component ctor gets constant", "teaal/ir/hardware.py",
           "component = class_(name, num_instances, local[\"attributes\"], binding)",
           "component = class_(name, 1, local[\"attributes\"], binding)", "M3"),
         M("getter returns constant", comp, "        return self.num_instances\n", "        return 1\n", "M3"),
+        M("revert F5 fix in get_components", "teaal/ir/hardware.py",
+          "            component = self.components[self.configs[einsum]][name]",
+          "            component = [c[name] for c in self.components.values() if name in c][-1]", "M7"),
+        M("component table keyed by name again", "teaal/ir/hardware.py",
+          "        self.components[config][component.get_name()] = component",
+          "        self.components.setdefault(\"all\", {})[component.get_name()] = component", "M7"),
         M("sequencers after roll-up", col,
           "        # Track the sequences\n        block.add(self.__build_sequencers())\n\n        # Add the final execution time modeling\n        num_einsums = len(self.program.get_all_einsums())\n        if self.program.get_einsum_ind() + 1 == num_einsums:\n            block.add(self.__build_time())\n",
           "        # Add the final execution time modeling\n        num_einsums = len(self.program.get_all_einsums())\n        if self.program.get_einsum_ind() + 1 == num_einsums:\n            block.add(self.__build_time())\n\n        # Track the sequences\n        block.add(self.__build_sequencers())\n",
